@@ -29,7 +29,16 @@ class CrashBoom(Exception):
     pass
 
 
-RESULTS = {"none": None, "0": 0, "5": 5, "127": 127, "128": 128, "-1": -1, "str": "x", "emptystr": "", "float0": 0.0, "list": []}
+import enum
+
+
+class ExitCode(enum.IntEnum):
+    OK = 0
+    CONFIG_ERROR = 78
+
+
+RESULTS = {"none": None, "0": 0, "5": 5, "127": 127, "128": 128, "-1": -1, "str": "x", "emptystr": "", "float0": 0.0, "list": [],
+           "enum0": ExitCode.OK, "enum78": ExitCode.CONFIG_ERROR, "true": True}
 
 
 def execute(case):
@@ -137,7 +146,7 @@ def execute(case):
                                 logging=None, start_timeout=2.5 if end["kind"] == "timeout" else 100)
                 log(ev="outcome", k="return", code=0, exc="")
             except SystemExit as e:
-                log(ev="outcome", k="exit", code=e.code if isinstance(e.code, int) else -999, exc="")
+                log(ev="outcome", k="exit", code=int(e.code) if isinstance(e.code, int) else -999, exc="")
             except BaseException as e:  # noqa: BLE001
                 log(ev="outcome", k="raise", code=0, exc=type(e).__name__)
     finally:
@@ -188,7 +197,7 @@ def run(tier: str, seed: int) -> core.Report:
         raise core.MachineryError(f"vacuous: monitor clauses never exercised: {sorted(need - set(hits))}")
     rep.distinct_nontrivial = len({json.dumps(t["prog"], sort_keys=True) for t in traces if sum(1 for e in t["events"] if e["ev"] == "reg") >= 2})
     rep.exhaustive = True
-    rep.rule = (f"all {len(progs)} programs of the family: 1-3 components x CLI/plain root x one ending out of: 10 classes of run() result, run() raising, failure of each "
+    rep.rule = (f"all {len(progs)} programs of the family: 1-3 components x CLI/plain root x one ending out of: 13 classes of run() result (incl. IntEnum members and bool), run() raising, failure of each "
                 "component in creating/preparing/starting, a stalling component with start-up timeout, SIGINT/SIGTERM at 5 moments (4 during start-up, 1 after), a service "
                 "task crashing at 3 moments; each through the real run_application on asyncio and trio under virtual time; non-trivial = at least two root teardown "
                 "callbacks were registered when the ending struck; distinct by program")
